@@ -12,6 +12,7 @@ URIS = [
     "http://ex.org/c#",
     "urn:x:",
     "http://other.org/ns#",
+    "http://www.w3.org/ns/prov#",  # the PROV namespace itself, registered under a user prefix
 ]
 
 # Prefixes: ordinary, look-like-generated (ex_1, dn) and reserved ones.
@@ -19,7 +20,7 @@ PREFIXES = ["ex", "o", "ex_1", "dn", "p2", "prov", "xsd"]
 PLAIN_PREFIXES = ["ex", "o", "ex_1", "dn", "p2"]
 
 # Local names.  All are NCName-safe except the ones in LOCALS_ODD.
-LOCALS = ["x", "y", "e1", "a1", "b", "c", "y-z", "p.q", "agent", "time"]  # two look like PROV attribute names
+LOCALS = ["x", "y", "e1", "a1", "b", "c", "y-z", "p.q", "agent", "time", "entity"]  # two look like PROV attribute names
 LOCALS_ODD = ["n/1", "1st", "q%41", "r;2", "k=v"]  # incl. characters PROV-N would have to escape
 
 # A local part that contains a registered namespace URI (F13 trigger); only
@@ -161,6 +162,7 @@ FOREIGN_DATATYPES = [
     ("http://ex.org/a/", "dt"),
     ("http://other.org/ns#", "T"),
     ("http://ex.org/c#", "T"),
+    (XSD_URI, "QName"),  # a literal that merely *looks* like a qualified name
 ]
 # natively supported datatypes with valid lexical forms and the Python value they denote
 NATIVE_LITERALS = [
